@@ -21,7 +21,7 @@ ID = 'C06'
 TITLE = 'Switching between rig poses and per-sensor poses never moves a sensor'
 GEN = ['RotMat']
 RULE = ('each case = a rig forest (0..4 rigs, 1..4 members each, members sensors or rigs, nesting <= 3 in quick / <= 11 in thorough, '
-        'each device on at most one rig) and a trajectory over 0..4 timestamps where at each timestamp a set of roots (top rigs, '
+        'each device on at most one rig; rigs declared bottom-up, top-down or shuffled; plus masts of depth 2..4 (thorough: ..10) declared both ways) and a trajectory over 0..4 timestamps where at each timestamp a set of roots (top rigs, '
         'nested rigs, members, free sensors) none below another is posed; with probability 0.4 the Rigs object has a history (another geometry, used for a removal and a recovery, then edited through the nested dict access); op = remove, or recover of a removed trajectory with '
         'masters None or one posed member per rig; distinct non-trivial = distinct cases with at least one rig entry')
 ASSUMPTIONS = [
@@ -83,7 +83,14 @@ def gen_forest(rng, max_depth):
             members['solo_' + r] = rnd_pose(rng)
         rigs[r] = members
         unmounted.append(r)
-    return rigs, free
+    # declaration order: bottom-up as built, top-down (a rig declared BEFORE the rigs it carries), or shuffled
+    order = list(rigs)
+    how = rng.choice(['built', 'reversed', 'shuffled'])
+    if how == 'reversed':
+        order.reverse()
+    elif how == 'shuffled':
+        rng.shuffle(order)
+    return {r: rigs[r] for r in order}, free
 
 
 def below(rigs, d, acc=None):
@@ -150,9 +157,33 @@ def gen_case(rng, tier):
             'inplace': rng.random() < 0.5, 'sparse': sparse, 'warm': rng.random() < 0.4}
 
 
+def chain_case(rng, depth, top_down, op):
+    """ a mast: rig_0 carries rig_1 carries ... carries two cameras, each level with a sensor of its own; the outermost rig is
+    posed at three timestamps; declared top-down or bottom-up """
+    names = ['level%d' % i for i in range(depth)]
+    rigs = {}
+    for i, r in enumerate(names):
+        members = {'own_%d' % i: rnd_pose(rng)}
+        if i + 1 < depth:
+            members[names[i + 1]] = rnd_pose(rng)
+        else:
+            members['cam_left'] = rnd_pose(rng)
+            members['cam_right'] = rnd_pose(rng)
+        rigs[r] = members
+    order = names if top_down else list(reversed(names))
+    traj = [[ts, names[0], rnd_pose(rng)] for ts in (3, 7, 20)] + [[7, 'free_gnss', rnd_pose(rng)]]
+    return {'rigs': [[r, [[m, p] for m, p in rigs[r].items()]] for r in order], 'traj': traj, 'op': op, 'masters': None,
+            'inplace': rng.random() < 0.5, 'sparse': None, 'warm': False}
+
+
 def cases(rng, tier):
     n = 250 if tier == 'quick' else 6000
-    return [gen_case(rng, tier) for _ in range(n)]
+    out = [gen_case(rng, tier) for _ in range(n)]
+    for depth in (2, 3, 4) if tier == 'quick' else (2, 3, 4, 6, 9, 10):
+        for top_down in (True, False):
+            for op in ('remove', 'recover'):
+                out.append(chain_case(rng, depth, top_down, op))
+    return out
 
 
 def build(case):
